@@ -308,6 +308,24 @@ func extremeCases(r *rand.Rand, tier string) []hostile {
 	p["minValue"], p["maxValue"] = 0.0, 1.0
 	mpOf(g.M)["function"], mpOf(g.M)["params"] = fn, p
 	add("thousandLevels", g.M, 200)
+	// coefficients too small to change the level in floating point: the series must not spin forever
+	for i, spec := range []struct {
+		method, fn string
+		p          M
+	}{
+		{"aspectEliminationHeuristic", "idealAdditiveCoefficient", M{"minValue": 0.5, "maxValue": 1.0, "coefficient": 1e-17}},
+		{"aspectEliminationHeuristic", "idealMultipliedCoefficient", M{"minValue": 0.0, "maxValue": 1.0, "coefficient": 1e-17}},
+		{"satisfactionHeuristic", "idealSubtractiveCoefficient", M{"minValue": 0.25, "maxValue": 1.0, "coefficient": 1e-300}},
+	} {
+		g = validBase(spec.method, r)
+		// identical alternatives are never eliminated / never satisfied early, so every level is walked
+		alts := g.M["knownAlternatives"].([]interface{})
+		for _, a := range alts {
+			a.(M)["criteria"] = M{"c0": 1.0, "c1": 1.0, "c2": 1.0}
+		}
+		mpOf(g.M)["function"], mpOf(g.M)["params"] = spec.fn, spec.p
+		add(fmt.Sprintf("stuckLevels%d", i), g.M, 0)
+	}
 	return out
 }
 
@@ -618,7 +636,7 @@ func init() {
 			"1e308 values, seeds +-2^63). After every request the child must be alive; GET /api/preferenceFunctions must list a schema for the seven methods before, every " +
 			"100 requests and after. distinct = distinct (request kind, status).",
 		assumptions: []string{"a request is 'unanswered' only if the child died or burned >30 s CPU without answering; a silent timeout without CPU use is inconclusive",
-			"requests whose documented parameters make the computation astronomically long (level coefficients below 1e-3) are not sent: their verdict would depend on a time budget"},
+			"requests whose documented parameters make the computation astronomically long but finite (level coefficients between 1e-16 and 1e-3) are not sent: their verdict would depend on a time budget"},
 		streams: []*stream{
 			{name: "batches", n: tierN(4, 24), unit: 1, run: c20Batch, watchdog: 0,
 				floors: map[string]int64{"batches": 4, "constraints_rejected": 600, "sent:valid": 1200, "sent:mutation": 2500, "sent:malformed": 200, "sent:fault": 20, "sent:extreme": 10}},
